@@ -212,7 +212,7 @@ func H_C20_redelegations() {
 func H_C20_balance_Q() {
 	id := "C20.balance"
 	more := nd.Choice("plusone", 2)
-	st := Build(shapeActor("shape"), Opts{})
+	st := Build(shapeActor("shape"), Opts{TinyTDS: true})
 	e := st.E
 	qs := keeper.NewQueryServerImpl(e.K)
 	res, err := qs.AllianceDelegation(e.Ctx, &types.QueryAllianceDelegationRequest{DelegatorAddr: Dels[0].String(), ValidatorAddr: Vals[0].String(), Denom: Denoms[0]})
